@@ -221,7 +221,8 @@ func (s *Server) HandleValidate(w http.ResponseWriter, r *http.Request) {
 	logger.V(1).Info("received request", "UID", review.Request.UID, "kind", review.Request.Kind, "resource", review.Request.Resource)
 
 	attributes := api.RequestAttributes(review.Request, codecs.UniversalDeserializer())
-	response := s.delegate.Validate(ctx, attributes)
+	// Validate may return a shared response object that must not be mutated: set the UID on a copy.
+	response := s.delegate.Validate(ctx, attributes).DeepCopy()
 	response.UID = review.Request.UID // Response UID must match request UID
 	review.Response = response
 	writeResponse(w, review)
